@@ -570,10 +570,10 @@ fn l32_file_stage_on(ctx: &Ctx, build_dir: &Path, target: &str, div: u64) -> (u6
 /// build, each in a child process on a 2 MiB thread: stack use must not grow with the input.  The `dbg0`
 /// build (opt-level 0: no inlining, no tail-call elimination) is what an ordinary `cargo build` user runs.
 pub fn deep_stage(ctx: &Ctx) -> (u64, Option<Value>, Option<String>) {
-    if ctx.id != "C19" && ctx.id != "C04" {
+    if !matches!(ctx.id.as_str(), "C19" | "C04" | "C07") {
         return (0, None, None);
     }
-    let lib = ctx.id == "C04";
+    let lib = ctx.id != "C19";
     let names: &[&str] = if lib { &crate::props::c04::DEEP_KINDS } else { &crate::props::c19::DEEP_KINDS };
     let n: usize = match (ctx.tier.name(), lib) {
         ("quick", false) => 300_000,
@@ -596,18 +596,20 @@ pub fn deep_stage(ctx: &Ctx) -> (u64, Option<Value>, Option<String>) {
     let mut err: Option<String> = None;
     let kinds = names.len();
     let mut children = Vec::new();
+    // the library is also fed a second, much larger size (digit-count thresholds in the millions)
+    let sizes: Vec<usize> = if lib { vec![n, n * 25] } else { vec![n] };
     for (name, bin) in &bins {
-        for k in 0..kinds {
+        for (k, n) in (0..kinds).flat_map(|k| sizes.iter().map(move |n| (k, *n))) {
             let c = Command::new(bin).args(["deep", &k.to_string(), &n.to_string(), if lib { "lib" } else { "front" }]).stdin(Stdio::null()).stdout(Stdio::piped()).stderr(Stdio::piped()).spawn();
             match c {
-                Ok(c) => children.push((*name, k, c)),
+                Ok(c) => children.push((*name, k, n, c)),
                 Err(e) => {
                     err.get_or_insert(format!("cannot start the deep-input child ({name}): {e}"));
                 }
             }
         }
     }
-    for (name, k, c) in children {
+    for (name, k, n, c) in children {
         let out = match c.wait_with_output() {
             Ok(o) => o,
             Err(e) => {
@@ -649,7 +651,7 @@ pub fn deep_stage(ctx: &Ctx) -> (u64, Option<Value>, Option<String>) {
 /// For properties that are not process-supervised: run the registered fuzz
 /// campaigns after the in-process check and merge them into the evidence file.
 pub fn fuzz_poststep(ctx: &Ctx, code: i32) -> i32 {
-    let wants_l32 = matches!(ctx.id.as_str(), "C01" | "C02" | "C05" | "C14" | "C18");
+    let wants_l32 = matches!(ctx.id.as_str(), "C01" | "C02" | "C05" | "C07" | "C14" | "C18");
     if (fuzz_targets_for(&ctx.id).is_empty() && !wants_l32) || code != 0 {
         return code;
     }
@@ -666,6 +668,11 @@ pub fn fuzz_poststep(ctx: &Ctx, code: i32) -> i32 {
     if err.is_none() {
         err = ferr;
     }
+    let (dv, deep_report, derr) = deep_stage(ctx);
+    violations += dv;
+    if err.is_none() {
+        err = derr;
+    }
     let epath = ctx.verif_dir.join("evidence").join(format!("{}.json", ctx.id));
     if let Some(mut ev) = read_json(&epath) {
         let execs: u64 = reports.iter().map(|r| r["executions"].as_u64().unwrap_or(0)).sum();
@@ -674,6 +681,9 @@ pub fn fuzz_poststep(ctx: &Ctx, code: i32) -> i32 {
         ev["coverage"]["fuzz"] = json!(reports);
         if let Some(l) = &l32f_report {
             ev["coverage"]["limb32_file_stage"] = l.clone();
+        }
+        if let Some(l) = &deep_report {
+            ev["coverage"]["deep_input_stage"] = l.clone();
         }
         if let Some(l) = &l32_report {
             ev["coverage"]["limb32_stage"] = l.clone();
